@@ -27,6 +27,21 @@ REGS = ["A", "B", "C"]
 SAFES = [0, 1, None]
 INIT = [5, 7, 9]
 CMDS = ["Start", "Stop", "Pause", "Unpause", "Hold", "Unhold", "Restart"]
+# UOD commands of the harness UOD (used by C08): command j writes its value to output register j // 2 on every
+# iteration and completes after n iterations. Argument "v,n"; without argument (user requests never carry one)
+# W<k> writes 60+k once, L<k> writes 70+k for three iterations.
+UCMDS = [f"{p}{k}" for k in range(3) for p in ("W", "L")]
+UDEFAULT = {f"W{k}": (60 + k, 1) for k in range(3)} | {f"L{k}": (70 + k, 3) for k in range(3)}
+
+
+def parse_uarg(name: str, arg: str | None):
+    """(value, iterations) of a harness UOD command request, or None if the argument is rejected."""
+    if arg is None or arg.strip() == "":
+        return UDEFAULT[name]
+    m = re.fullmatch(r"\s*(-?\d+)\s*,\s*(\d+)\s*", arg)
+    if m is None:
+        return None
+    return int(m.group(1)), int(m.group(2))
 _UNIT = {"s": 1, "min": 60, "h": 3600}
 
 
@@ -135,6 +150,8 @@ class Sim:
             else:
                 b = b.with_hardware_register(name, m["RegisterDirection"].Write, safe_value=safe)
             b = b.with_tag(m["Tag"](name, value=init, unit=None, direction=m["TagDirection"].Output))
+        for cname in UCMDS:
+            b = b.with_command(name=cname, exec_fn=self._make_exec(cname), arg_parse_fn=self._make_parse(cname))
         uod = b.build()
         uod.hwl.connect()
         e = m["Engine"](uod, m["EngineTiming"](m["WallClock"](), m["NullTimer"](), 0.1, 1.0))
@@ -153,6 +170,23 @@ class Sim:
         e.run(skip_timer_start=True)
         e.set_method(m["Mdl"].Method.from_pcode(method))
 
+    @staticmethod
+    def _make_parse(cname: str):
+        def parse(args):
+            r = parse_uarg(cname, args)
+            return None if r is None else {"v": r[0], "n": r[1]}
+        return parse
+
+    @staticmethod
+    def _make_exec(cname: str):
+        reg = REGS[int(cname[1])]
+
+        def exec_fn(cmd, v, n):
+            cmd.context.tags[reg].set_value(v, 0.0)
+            if cmd.get_iteration_count() + 1 >= n:
+                cmd.set_complete()
+        return exec_fn
+
     # -- instrumentation ---------------------------------------------------------------
     def _instrument(self):
         e = self.e
@@ -162,6 +196,9 @@ class Sim:
         def sched(name, arguments="", instance_id=None):
             if name in CMDS:
                 sim.items.append("m." + name.lower() + classify_arg(name, arguments))
+            elif name in UCMDS:
+                r = parse_uarg(name, arguments)
+                sim.items.append(f"u.{UCMDS.index(name)}:" + ("x" if r is None else f"{r[0]}:{r[1]}"))
             else:
                 sim.items.append("?" + name)
             return orig_sched(name, arguments, instance_id)
